@@ -9,6 +9,9 @@ policy_monitor      DependencyFallbacksHolder.lookup/_get_candidates, dependenci
 make_wrap_monitor   shutil.unpack_archive (as referenced by wrap.py: `shutil.unpack_archive`), urllib.request.urlopen,
                     Resolver.get_data / check_hash / copy_tree; at every unpack the monitor hashes the bytes at the
                     path being unpacked and compares with the hash the wrap file records for that role.
+make_concurrency_monitor  two processes on one source tree: fcntl.flock (blocking request for `.wraplock` is published
+                    as a marker file), Resolver.resolve (digest of the tree the process ACCEPTED, at the return),
+                    optional hold at the entry of Resolver.apply_patch / apply_diff_files until a marker file appears.
 """
 from __future__ import annotations
 
@@ -256,3 +259,102 @@ def make_wrap_monitor(roles: dict, wrap_mode: str, fault: T.Optional[dict]) -> T
     return install
 
 
+
+
+# ====================================================================================================
+# Part B, two processes on one source tree: ordering through marker files (never through the clock)
+# ====================================================================================================
+TREE_IGNORED = {'.meson-subproject-wrap-hash.txt'}
+
+
+def tree_digest(d: str) -> T.Dict[str, str]:
+    """relative path -> sha256 of a regular file / 'link:<target>' of a symbolic link (never followed)."""
+    out: T.Dict[str, str] = {}
+    for dp, dn, fn in os.walk(d):
+        for f in dn + fn:
+            p = os.path.join(dp, f)
+            if os.path.islink(p):
+                out[os.path.relpath(p, d)] = 'link:' + os.readlink(p)
+            elif f in fn and f not in TREE_IGNORED:
+                out[os.path.relpath(p, d)] = sha_file(p) or '?'
+    return out
+
+
+def touch_marker(markdir: str, name: str, text: str = '') -> None:
+    """Atomically publish a marker file (a reader never sees it half-written)."""
+    tmp = os.path.join(markdir, f'.tmp-{os.getpid()}-{name}')
+    with open(tmp, 'w', encoding='utf-8') as f:
+        f.write(text)
+    os.rename(tmp, os.path.join(markdir, name))
+
+
+def make_concurrency_monitor(markdir: str, tag: str, subdir: str, hold_fn: T.Optional[str] = None,
+                             watchdog: float = 100.0) -> T.Callable:
+    """`tag` names the process in the marker directory.
+    * fcntl.flock (the name utils/platform.py calls through): a BLOCKING request for a file called `.wraplock`
+      publishes `<tag>.lockwait` before the call: from then on the process cannot get past the lock while another
+      one holds it (what the driver needs to know before it lets the holder go on);
+    * Resolver.resolve: on return the digest of the subproject directory AT THAT MOMENT is recorded - the tree this
+      process accepted;
+    * hold_fn ('apply_patch' / 'apply_diff_files'): the process announces `started.fn` at the entry of that method and
+      stays there until `release.fn` appears ('ok' -> the real method runs, anything else -> the step fails)."""
+    def install(rec: T.Callable[[dict], None]) -> None:
+        import fcntl
+        from mesonbuild.wrap import wrap as W
+        real_flock = fcntl.flock
+
+        def flock(fd: T.Any, flags: int, *a: T.Any, **k: T.Any) -> T.Any:
+            try:
+                name = str(getattr(fd, 'name', ''))
+                blocking = not (flags & fcntl.LOCK_NB) and not (flags & fcntl.LOCK_UN)
+                if name.endswith('.wraplock'):
+                    rec({'ev': 'wraplock', 'blocking': blocking})
+                    if blocking:
+                        touch_marker(markdir, f'{tag}.lockwait')
+            except Exception as e:
+                rec({'ev': 'monitor-error', 'where': 'flock', 'err': repr(e)})
+            return real_flock(fd, flags, *a, **k)
+        fcntl.flock = flock
+
+        real_resolve = W.Resolver.resolve
+
+        def resolve(self: T.Any, packagename: str, *a: T.Any, **k: T.Any) -> T.Any:
+            try:
+                res = real_resolve(self, packagename, *a, **k)
+            except BaseException as e:
+                rec({'ev': 'resolve-raise', 'exc': type(e).__name__, 'msg': str(e)[:200]})
+                raise
+            try:
+                held = [n for n in os.listdir(markdir) if n.startswith('started.')]
+                released = [n for n in os.listdir(markdir) if n.startswith('release.')]
+                rec({'ev': 'resolve-return', 'exists': os.path.isdir(subdir), 'tree': tree_digest(subdir),
+                     'first_run_still_held': any('release.' + n.split('.', 1)[1] not in released for n in held)})
+            except Exception as e:
+                rec({'ev': 'monitor-error', 'where': 'resolve', 'err': repr(e)})
+            return res
+        W.Resolver.resolve = resolve
+
+        if hold_fn:
+            real_fn = getattr(W.Resolver, hold_fn)
+
+            def held_fn(self: T.Any, *a: T.Any, **k: T.Any) -> T.Any:
+                mode = 'ok'
+                try:
+                    os.mkdir(os.path.join(markdir, 'started.fn'))
+                    rec({'ev': 'hold', 'at': hold_fn})
+                    end = time.monotonic() + watchdog
+                    rel = os.path.join(markdir, 'release.fn')
+                    while not os.path.exists(rel) and time.monotonic() < end:
+                        time.sleep(0.01)
+                    with open(rel, encoding='utf-8') as f:
+                        mode = f.read().strip()
+                except FileExistsError:
+                    pass      # another process is (was) the held one
+                except Exception as e:
+                    rec({'ev': 'monitor-error', 'where': 'hold', 'err': repr(e)})
+                if mode != 'ok':
+                    rec({'ev': 'fault', 'kind': 'held-step', 'at': hold_fn})
+                    raise W.WrapException(f'injected failure of the {hold_fn} step')
+                return real_fn(self, *a, **k)
+            setattr(W.Resolver, hold_fn, held_fn)
+    return install
